@@ -5,13 +5,12 @@ arithmetic of the readers are translated here:
   * the mixing sum of hash_combine (the outer `seed ^ (...)` is part of the anchor; `<<6`/`>>2` and the hex constant are
     normalised to `*64`, `/4` and the decimal literal by the atom table -- any other shift/constant no longer parses),
   * the tensor header rejection test, the element count of the payload (product of the dimensions),
-  * the version compatibility test of configurable_t::read and the LE/LT flag decoding of parameter_t::read.
+  * the version compatibility test of configurable_t::read.
 """
 HS = "include/nano/core/hash.h"
 TS = "include/nano/tensor/stream.h"
 DM = "include/nano/tensor/dims.h"
 CF = "src/configurable.cpp"
-PM = "src/parameter.cpp"
 
 KERNELS = [
     # the generated Src_<group>.v files import Src_numeric: make sure it is (re)generated for C15 runs on a fresh
@@ -46,7 +45,4 @@ KERNELS = [
       [(r"nano::major_version", "cur_major"), (r"nano::minor_version", "cur_minor"), (r"nano::patch_version", "cur_patch")],
       [("m_major_version", "Z"), ("m_minor_version", "Z"), ("m_patch_version", "Z"),
        ("cur_major", "Z"), ("cur_minor", "Z"), ("cur_patch", "Z")], "stream", ["C15"]),
-    # ---- src/parameter.cpp ----------------------------------------------------------------------
-    K("src_make_comp", PM, r"auto make_comp\(uint32_t flag\)\s*\{\s*return\s+(.*?);",
-      [(r"LEorLT\{LE\}", "1"), (r"LEorLT\{LT\}", "0")], [("flag", "Z")], "stream", ["C15"]),
 ]
